@@ -36,8 +36,9 @@ RULE = (
 )
 ASSUMPTIONS = ["Python tuple comparison is 'lexicographic order on the pair'", "pydantic's ValidationError is the validation error meant by the property"]
 
-PFX = ["a", "A", "", "é", "a.b", "x y", "GO", "go", " p", "ab"]
-IDS = ["", "1", "a:b", ":", "é", "a\tb", 'q"z', "a\nb", "a\rb", " s ", "0001", "a\r\nb", "::", "x:", '"', "\\", "1 "]
+PFX = ["a", "A", "", "é", "a.b", "x y", "GO", "go", " p", "ab", "#hashtag", "#", "e\u0301", "\ufeffa"]
+IDS = ["", "1", "a:b", ":", "é", "a\tb", 'q"z', "a\nb", "a\rb", " s ", "0001", "a\r\nb", "::", "x:", '"', "\\", "1 ",
+       "line 1\n# line 2", "#x", "e\u0301", "a%20b"]
 NAMES = [None, "n", "m", "", "é\n"]
 
 
